@@ -70,6 +70,7 @@ structure MConn where
   order : Nat := 0                -- admission order
   cleanReconnectNewWill : Bool := false  -- a clean-start reconnect carrying a will arrived within the will delay
   taskFate : String := "-"        -- what `join` reported for the connection task
+  lastSync : Nat := 0             -- op index of the last barrier this stream answered
   deriving Repr
 
 structure Mon where
@@ -81,6 +82,8 @@ structure Mon where
   willSeen : List (Nat × WillSpec) := []     -- (subscriber stream, will) publications observed
   admissions : Nat := 0
   rejectedSends : List (Bytes × Bytes) := []  -- publishes written on streams that never became sessions
+  opIx : Nat := 0                 -- ops seen in this case
+  lastEvent : Nat := 0            -- index of the last op that can cause a delivery (anything but sync / join / wills / end)
 
 def Mon.conn? (m : Mon) (c : Nat) : Option MConn := (m.conns[c]?).bind id
 
@@ -162,7 +165,8 @@ def Mon.probed (m : Mon) (c : Nat) : Mon × Fail :=
   | some x =>
     let f1 : Fail := if x.pending.isEmpty then none else
       some ("c20-content", s!"missing stream={c} pending={x.pending.length} first-topic={hex (x.pending.head?.map (·.1) |>.getD [])}")
-    let m := m.setConn c { x with pending := [] }
+    let m := m.setConn c { x with pending := [], lastSync := m.opIx }
+    let x := { x with lastSync := m.opIx }
     if !x.admitted then (m, f1) else
     let round := if m.round.contains c then m.round else m.round ++ [c]
     let m := { m with round := round }
@@ -258,8 +262,10 @@ def Mon.atEnd (m : Mon) : Fail :=
       | some w => if x.admitted && !acc.contains w then acc ++ [w] else acc
       | none => acc)
     | none => acc) []
+  -- only subscribers that answered a barrier after the last op that can cause a delivery have
+  -- seen everything (matters for shrunk replays, where barriers may have been deleted)
   let subs := (List.range m.conns.length).filter (fun s => match m.conn? s with
-    | some y => y.admitted && y.alive && !y.subs.isEmpty
+    | some y => y.admitted && y.alive && !y.subs.isEmpty && y.lastSync > m.lastEvent
     | none => false)
   wills.foldl (fun (acc : Fail) w =>
     match acc with
@@ -338,6 +344,26 @@ def encOut (v : Version) (n : Encode.DNotif) : String :=
     | .error .panic => "P"
     | .error _ => "E"
 
+/-- content of the bytes `Protocol::write` produced for a forward, read back with the CLIENT crate's
+    codec (model): exactly one PUBLISH with the forward's topic, payload and QoS; towards MQTT 5 the
+    forward's properties, towards 3.1.1 none. `none` = fine. -/
+def sweepContent (v : Version) (n : Encode.DNotif) (bytes : Bytes) : Option String :=
+  match n with
+  | .forward _ qos _ topic _ payload props =>
+    let want : Option Props := match v with
+      | .v4 => none
+      | .v5 => (match CodecD.normO V5.publishSpec props with | some [] => none | x => x)
+    match Stack.clientDecode v bytes with
+    | some (.publish _ q _ t _ pl pr) =>
+      if t ≠ topic then some s!"topic differs (written {topic.length} bytes, read {t.length})"
+      else if pl ≠ payload then some s!"payload differs (written {payload.length} bytes, read {pl.length})"
+      else if q ≠ qos then some "QoS differs"
+      else if CodecD.normO V5.publishSpec pr ≠ want then some s!"properties differ: read {CodecD.sProps pr}"
+      else none
+    | some _ => some "the bytes decode to another packet type"
+    | none => some s!"the {bytes.length} bytes are not exactly one decodable frame (announced length wrong / stream desynchronised)"
+  | _ => none
+
 /-! ### the handler -/
 
 structure DState where
@@ -365,6 +391,11 @@ def nat? (s : String) : Option Nat := s.toNat?
 
 def step (st : DState) (op : List String) (out : String) : DState × Verdict :=
   let out := out.trimAscii.toString
+  let ix := st.m.opIx + 1
+  let passive := match op with
+    | "sync" :: _ | "join" :: _ | ["wills"] | ["end"] | "note" :: _ => true
+    | _ => false
+  let st := { st with m := { st.m with opIx := ix, lastEvent := if passive then st.m.lastEvent else ix } }
   match op with
   | ["new", mc, auth] =>
     match nat? mc, AdmitD.parseAuth auth with
@@ -387,6 +418,11 @@ def step (st : DState) (op : List String) (out : String) : DState × Verdict :=
           if !routerEmits ver n then none
           else if out == "P" then some ("c20-encode-panic", s!"Protocol::write panicked: enc {v} {kind} {" ".intercalate rest}")
           else if out == "E" then some ("c20-encode-error", s!"Protocol::write failed: enc {v} {kind} {" ".intercalate rest}")
+          else if out.startsWith "W" then
+            match CodecD.unhex (out.drop 1).toString with
+            | none => none
+            | some bytes =>
+              (sweepContent ver n bytes).map (fun why => ("c20-content", s!"sweep enc {v} {kind}: {why}"))
           else none
         let mo := if st.wrong && out.startsWith "W" then "W00" else encOut ver n
         verdict { st with dead := false } mo out (mo == out) mon
@@ -492,7 +528,7 @@ def step (st : DState) (op : List String) (out : String) : DState × Verdict :=
         verdict { st with m := m } mo out (mo == out) f
       else (st, .bad "op")
   | ["wills"] =>
-    let mo := if st.s.sw.poisoned then "poisoned" else toString st.s.sw.handlers.length
+    let mo := toString st.s.sw.handlers.length
     verdict st mo out (mo == out) none
   | _ => (st, .bad "unknown op")
 
